@@ -2177,10 +2177,12 @@ class Node(_protocols.NodeProtocol, _display.PrettyPrintable):
         self.device_configurations: tuple[NodeDeviceConfiguration, ...] = device_configurations
         # _graph is set by graph.append
         self._graph: Graph | None = None
+        # Set all attributes before the node is handed to the graph so that the graph (or an
+        # observer such as a journal) sees a fully initialized node
+        self.doc_string = doc_string
         # Add the node to the graph if graph is specified
         if graph is not None:
             graph.append(self)
-        self.doc_string = doc_string
 
         # Add the node as a use of the inputs
         for i, input_value in enumerate(self._inputs):
